@@ -331,7 +331,17 @@ INSTR = {
     "ReserveBase": lambda v, b: ReserveBaseInstruction(v, b),
     "ChargeBase": lambda v, b, c: ChargeBaseInstruction(v, b, c),
     "Reposition": lambda v, link: RepositionInstruction(v, link),
+    # a pooling re-plan: ("I", "Pool", vehicle, "p0:D", "p1:P", "p1:D")
+    "Pool": lambda v, *plan: _pool_instruction(v, plan),
 }
+
+
+def _pool_instruction(v, plan):
+    from nrel.hive.dispatcher.instruction.instructions import DispatchPoolingTripInstruction
+    from nrel.hive.model.vehicle.trip_phase import TripPhase
+
+    ph = {"P": TripPhase.PICKUP, "D": TripPhase.DROPOFF}
+    return DispatchPoolingTripInstruction(v, tuple((x.split(":")[0], ph[x.split(":")[1]]) for x in plan))
 
 
 def mk_instruction(ev: Sequence) -> Any:
@@ -388,6 +398,10 @@ class World:
 
     def released(self, hv) -> frozenset:
         return hv
+
+    def hv0_for(self, label: str) -> Any:
+        """history variable of a start state (worlds with start states in which something has already happened override)"""
+        return self.hv0()
 
     def hv_next(self, hv, pre, events, post, reports) -> Any:
         rel = [e[1] for e in events if e[0] == "R"] + ["T:" + e[1] for e in events if e[0] == "T"]
@@ -492,7 +506,7 @@ class World:
     def run(self, history: Sequence):
         """history = (start_label, events_0, events_1, ...) -> final state, hv"""
         sim = self.starts[history[0]]
-        hv = self.hv0()
+        hv = self.hv0_for(history[0])
         for evs in history[1:]:
             post, reports = self.step(sim, evs)
             hv = self.hv_next(hv, sim, evs, post, reports)
